@@ -44,6 +44,16 @@ CLAIMED = {
   "text": "Decides for the three breakers: state is touched only via sync/atomic; a success clears the failure count; the refuse path records nothing; every admitted attempt records exactly one outcome; a failure always refreshes the last-failure time; and where re-opening from half-open relies on the count staying at the threshold, nothing but RecordSuccess lowers it. Thresholds, time-outs and half-open admission counts are state-machine/temporal statements and are not decided.",
   "note": "Trusted: sync/atomic semantics. Breaker types are listed in a table in checker/c07.go (three named structs); a rename is reported as an unresolved anchor.",
  },
+ "C15": {
+  "technique": "static analysis: def-use scan of every upstream *http.Request's header writes, dominance of the copy store by negated predicates, case-sensitivity lint of all uses of the raw header name (followed into helper predicates and closures), constant folding with CanonicalMIMEHeaderKey, table coverage check",
+  "text": "Decides that upstream request headers come only from one filtered copy plus constant-named additions; that the copy store is dominated by a case-insensitive hop-by-hop test covering the eight names and by canonicalised comparisons covering the five credential names, with no case-sensitive use of the raw name anywhere on the way; that Via / X-Forwarded-For additions never rebuild the header from its first line only; that header value slices shared with the inbound request are never edited in place; and that nothing but the proxy engines sends requests upstream on the request path. It does not decide what net/http itself adds or strips.",
+  "note": "Trusted: CanonicalHeaderKey as specified (folded by the checker with net/textproto). Defect F12 (repeated Via / X-Forwarded-For lines dropped) was fixed in /repo commit 3328028.",
+ },
+ "C16": {
+  "technique": "static analysis: provenance of the returned *url.URL (copy of endpoint URL / ResolveReference of a path-only literal), who-may-write on authority fields, must-store of RawQuery before each return, sanitiser check on request-derived path joins, operand provenance of upstream request construction",
+  "text": "Decides that every URL the builder returns keeps the endpoint's scheme/host (copy or path-only ResolveReference, no authority store), carries the client's RawQuery, that request-derived segments joined under a base path are sanitised first, that configured health/model paths are resolved with path.Join under the base path, and that engines build upstream requests from (inbound method, builder URL for the attempt's endpoint, inbound body). It does not decide ServeMux path cleaning or percent-encoding round trips.",
+  "note": "Trusted: net/url.ResolveReference semantics for path-only references; path.Clean. Known genuine defect F13 (preserve_path join without dot-segment guard; the repo's own tests assert the traversal result, so it cannot be repaired with the suite unedited) is in known_findings.json.",
+ },
 }
 _PENDING = "check not built yet in this session; see DESIGN.md §5 for the planned static rules"
 NOT_APPLICABLE = {f"C{i:02d}": _PENDING for i in range(1, 21)}
